@@ -13,31 +13,18 @@ mod imp {
 use tevec::prelude::*;
 
 use crate::proto::{toks, Req};
-use crate::{roll1_dispatch, with_out, with_xs_all, with_xs_num};
+use crate::{roll1_dispatch, roll1_plain_call, roll1_valid_call, with_out, with_xs_all, with_xs_num};
 
 pub fn run(r: &Req) -> Option<String> {
     let w = r.usize("w");
     let mp = r.opt_usize("mp");
-    macro_rules! valid {
-        ($($name:ident => $to:ident),*) => {
-            match r.f.as_str() {
-                $( stringify!($name) => return Some(roll1_dispatch!(r, with_xs_all, with_xs_f, |view, OC, U, out| view.$to::<OC, U>(w, mp, out))), )*
-                _ => {},
-            }
-        };
+    let f = r.f.as_str();
+    if crate::rollrun::ROLL1_VALID.contains(&f) {
+        return Some(roll1_dispatch!(r, with_xs_all, with_xs_f, |view, OC, U, out| roll1_valid_call!(f, view, OC, U, out, w, mp, r).unwrap()));
     }
-    macro_rules! plain {
-        ($($name:ident => $to:ident),*) => {
-            match r.f.as_str() {
-                $( stringify!($name) => return Some(roll1_dispatch!(r, with_xs_num, with_xs_f64, |view, OC, U, out| view.$to::<OC, U>(w, mp, out))), )*
-                _ => {},
-            }
-        };
+    if crate::rollrun::ROLL1_PLAIN.contains(&f) {
+        return Some(roll1_dispatch!(r, with_xs_num, with_xs_f64, |view, OC, U, out| roll1_plain_call!(f, view, OC, U, out, w, mp, r).unwrap()));
     }
-    valid!(ts_vsum => ts_vsum_to, ts_vmean => ts_vmean_to, ts_vewm => ts_vewm_to, ts_vwma => ts_vwma_to,
-           ts_vstd => ts_vstd_to, ts_vvar => ts_vvar_to, ts_vskew => ts_vskew_to, ts_vkurt => ts_vkurt_to);
-    plain!(ts_sum => ts_sum_to, ts_mean => ts_mean_to, ts_ewm => ts_ewm_to, ts_wma => ts_wma_to,
-           ts_std => ts_std_to, ts_var => ts_var_to, ts_skew => ts_skew_to, ts_kurt => ts_kurt_to);
     match r.f.as_str() {
         "ts_vfdiff" => {
             let d = r.f64("d");
